@@ -130,6 +130,40 @@ CLAIMED['C16'] = dict(
          'framer is abstracted to "a complete reply frame with transaction id t arrives" (framing itself is C03/C06/C07); the '
          'application re-enters only execute. close() and the reconnecting factory policy are out of scope.')
 
+TXN_NOTE = ('Modelled not verified: the transport (OS sockets, serial port, real time) is the scripted peer of harness/txnlib.py - one '
+            'reaction per transmission (reply bytes now, bytes that arrive after the attempt, send / receive failure, peer close), stream '
+            'reads return min(n, available), time is virtual (time / select / socket / serial.Serial references of the client modules '
+            'are swapped for fakes, no pymodbus function is replaced); connect() succeeds; a finite timeout is configured. The model is '
+            'the tree after the fix commits listed in known_findings.json (C08 / C13 entries). ')
+CLAIMED['C08'] = dict(
+    text='Kernel-checked on Model/Txn.lean (one client.execute over a scripted transport; every framer x transport x retry setting, '
+         'every client state with an empty transaction table, every peer state and script): returned_reply_answers_request (a returned '
+         'reply satisfies Spec answers: transaction id on MBAP, unit id on serial framings unless unit 0/255, function code or code|0x80, '
+         'AND is the decoding of bytes read from the transport during this call), stale_never_returned, conformant_reply_returned '
+         '(generic) + _tcp / _rtu / _ascii / _binary instances composed with the codec and frame round trips of C02/C03 (all WFResp '
+         'response classes and exception replies, value returned = value sent), stale_input_before_write_is_discarded, tid_step / '
+         'tid_sequence (ids tid0+1.. mod 65536 along any history) / tid_wraps / wire_tid, history_independent. The model is compared per '
+         'call (result, frames written, bytes consumed / flushed, state) with the real ModbusTcpClient (4 framers), ModbusSerialClient '
+         '(3) and ModbusUdpClient over fake transports, and the Spec predicate is evaluated by the driver on the REAL replies each run.',
+    design='6/C08', technique='Lean 4 proof over a scripted-transport model of the sync client + differential correspondence',
+    note=TXN_NOTE + 'Replies of the classes outside C01.WFResp (file records, FIFO, device identification) are covered by '
+         'correspondence only; RTU/ASCII/binary instances assume the predicted reply size equals the real one (C14) as the explicit '
+         'hypothesis ExpectedOk. Known finding udp-stale-datagram: the UDP client cannot discard a pending datagram.')
+CLAIMED['C13'] = dict(
+    text='Kernel-checked on Model/Txn.lean, for every configuration, client / peer state and script (induction over the retry counter '
+         'and the script): transmissions_le (<= 1 + retries), reads_bounded (<= 2 per transmission: every loop is structurally bounded), '
+         'frames_written, never_raises + raises_only_unencodable (result is a reply, an error object or the broadcast marker), '
+         'ready_after / pending_empty_invariant / next_call_ignores_leftovers / failed_call_leaves_healthy (a call that returns an error '
+         'object has closed the connection), retries_honoured + retry_on_empty_honoured + retry_on_invalid_honoured, recovers / '
+         'recovers_after_any_history / recovers_after_failure; the unrestricted recovery statement C13_recovers_full is refuted by '
+         'recovers_udp_counterexample (known finding udp-stale-datagram) with udp_recovers_on_the_next_call. Real clients are run over '
+         'fake transports under a virtual clock with an operation budget (a hang is a violation); per call the result, transmissions, '
+         'virtual time, state and the retry / recovery clauses are checked on the real trace; scripts over a 10-kind alphabet are '
+         'enumerated exhaustively (length <= 2 quick, <= 3 thorough).',
+    design='6/C13', technique='Lean 4 proof (structural bounds, retry-loop induction) + differential correspondence under virtual time',
+    note=TXN_NOTE + 'Virtual time of the real code is measured by the harness against (1+retries)*(4*timeout)+backoff, not proved in '
+         'Lean. ModbusUdpClient default timeout None (blocks for ever) is outside the scope (a finite timeout is assumed).')
+
 SERVER_NOTE = ('Modelled not verified: socketserver / asyncio / the Twisted reactor are replaced by "chunks are handed to the handler in '
                'order" (in-process fakes drive the real handler and protocol classes). The model covers the execute methods of every '
                'request class and the process-wide control block (message counters, listen-only flag, identity), so bytes written, '
